@@ -199,3 +199,115 @@ async def lines_case(rng):
         conn.abort()
         wire.cut_link()
         await memwire.settle(4)
+
+
+async def exact_case(rng):
+    """A LATE reader: the server handler starts reading only after the client's data has arrived (so that one
+    window sits in the stream buffer and the rest in the channel), then asks for it with readexactly(n) / read(-1)
+    / read(n) loops; the client sends nothing more (and, for readexactly, no EOF) until it is answered."""
+    import asyncssh
+    window = rng.choice([16, 64, 1024, 4096])
+    total = rng.choice([window + 1, 2 * window, 3 * window + 7, 10 * window])
+    mode = rng.choice(['exactly', 'exactly', 'all', 'loop'])
+    lag = rng.choice([30, 100, 400])
+    res = {'data': b'', 'done': False, 'error': None}
+
+    async def handle(stdin, stdout, stderr):
+        try:
+            for _ in range(lag):
+                await asyncio.sleep(0)
+            if mode == 'exactly':
+                res['data'] = await stdin.readexactly(total)
+            elif mode == 'all':
+                res['data'] = await stdin.read()
+            else:
+                buf = bytearray()
+                while len(buf) < total:
+                    d = await stdin.read(rng.choice([1, 7, window, 2 * window]))
+                    if not d:
+                        break
+                    buf += d
+                res['data'] = bytes(buf)
+        except Exception as e:                  # noqa
+            res['error'] = repr(e)
+            res['data'] = getattr(e, 'partial', b'')
+        res['done'] = True
+        stdout.write(b'ok')
+        stdout.channel.exit(0)
+
+    class Srv(asyncssh.SSHServer):
+        def begin_auth(self, u):
+            return False
+
+    tun, wire, acc, conn = await memwire.connected_pair(
+        Srv, srv_kw={'session_factory': handle, 'encoding': None, 'window': window})
+    try:
+        chan, sess = await conn.create_session(asyncssh.SSHClientSession, encoding=None)
+        sent = bytes((i * 7) % 251 for i in range(total))
+        chan.write(sent)
+        if mode == 'all':
+            chan.write_eof()
+        await _turns(lambda: res['done'], lambda: (len(wire.log['c']), len(wire.log['s'])))
+        cfg = {'kind': 'stream_exact', 'window': window, 'total': total, 'mode': mode, 'lag': lag}
+        if not res['done']:
+            return (f'late reader ({mode}) on a {window}-byte window never completed: {total} bytes were sent and '
+                    f'nothing more will come until it answers'), cfg
+        if res['data'] != sent:
+            return (f'late reader ({mode}) on a {window}-byte window got {len(res["data"])} of {total} bytes'
+                    f'{" (" + res["error"] + ")" if res["error"] else ""}'), cfg
+        return None, cfg
+    finally:
+        conn.abort()
+        wire.cut_link()
+        await memwire.settle(4)
+
+
+async def late_wait_case(rng):
+    """create_process(), let more than one receive window of output pile up unread, only then wait() /
+    communicate(): the call must return with the complete output."""
+    import asyncssh
+    window = rng.choice([64, 1024, 4096])
+    total = rng.choice([window + 1, 3 * window, 5 * window + 3])
+    call = rng.choice(['wait', 'communicate'])
+    lag = rng.choice([50, 300])
+    res = {}
+
+    async def handle(process):
+        process.stdout.write(bytes((i * 11) % 251 for i in range(total)))
+        process.exit(3)
+
+    class Srv(asyncssh.SSHServer):
+        def begin_auth(self, u):
+            return False
+
+    tun, wire, acc, conn = await memwire.connected_pair(
+        Srv, srv_kw={'process_factory': handle, 'encoding': None}, cli_kw={})
+    try:
+        proc = await conn.create_process('x', encoding=None, window=window)
+        for _ in range(lag):
+            await asyncio.sleep(0)
+
+        async def waiter():
+            if call == 'wait':
+                r = await proc.wait()
+                res['out'], res['status'] = r.stdout, r.exit_status
+            else:
+                out, _err = await proc.communicate()
+                res['out'], res['status'] = out, proc.exit_status
+        task = asyncio.ensure_future(waiter())
+        await _turns(task.done, lambda: (len(wire.log['c']), len(wire.log['s'])))
+        cfg = {'kind': 'late_wait', 'window': window, 'total': total, 'call': call, 'lag': lag}
+        if not task.done():
+            task.cancel()
+            return (f'{call}() called after {total} bytes of output had piled up behind a {window}-byte window never '
+                    f'returned (no WINDOW_ADJUST: the peer cannot send the rest)'), cfg
+        if task.exception():
+            return f'{call}() raised {task.exception()!r}', cfg
+        want = bytes((i * 11) % 251 for i in range(total))
+        if res['out'] != want or res['status'] != 3:
+            return f'{call}() returned {len(res["out"] or b"")} of {total} bytes, exit status {res["status"]}', cfg
+        return None, cfg
+    finally:
+        conn.abort()
+        wire.cut_link()
+        await memwire.settle(4)
